@@ -379,3 +379,31 @@ def _(c):
         c.scenario(f"{ua}: value({target}), to({ub}), value({target})", pre)
     c.ensures("near(result, twin.value(rt), 1000)", "same-as-a-quantity-created-in-the-new-unit")
     c.no_raise()
+
+
+# ---- a quantity that carries an uncertainty converts by the same formulas (the uncertainty does not select another conversion) ----------------
+WITH_ERR = [("Cel", "K", "x + 273.15"), ("K", "Cel", "x - 273.15"), ("degF", "K", "(x + 459.67) * 5 / 9"), ("d:Bm", "m:W", "pow10(x / 10)"), ("d:B", "PR", "pow10(x / 10)"), ("Np", "AR", "exp(x)"),
+            ("m:W", "d:Bm", "10 * log10(x)"), ("k:K", "Cel", "1000 * x - 273.15")]
+
+
+for how in ("value", "to"):
+    @contract(Q + "." + how, ["C05"], name=f"Quantity.{how}[nonlinear-with-an-uncertainty]")
+    def _(c, how=how):
+        c.bound = "the listed unit pairs; value and absolute uncertainty symbolic; uncertainty given to the constructor or set afterwards"
+        for ua, ub, formula in WITH_ERR:
+            for late in (False, True):
+                def pre(bd, ua=ua, ub=ub, formula=formula, late=late):
+                    from contracts.units_common import T
+                    e = bd.real("e")
+                    bd.assume_rel(e, ">=", 0)
+                    q = bd.new(Q, bd.real("x"), U.render(T(ua)), **({} if late else dict(abse=e)))
+                    if late:
+                        bd.call(bd.getattr(q, "abse"), e)
+                    return dict(args=[q, U.render(T(ub))], env=dict(x=bd.getattr(bd.getattr(q, "magnitude"), "value"), formula=formula, how=how))
+                c.scenario(f"{ua}->{ub}" + ("[uncertainty-set-afterwards]" if late else ""), pre)
+        c.requires("x > 0")
+        c.ensures("near(result if how == 'value' else result.magnitude.value, "
+                  "(x + 273.15) if formula == 'x + 273.15' else ((x - 273.15) if formula == 'x - 273.15' else (((x + 459.67) * 5 / 9) if formula == '(x + 459.67) * 5 / 9' else "
+                  "(pow10(x / 10) if formula == 'pow10(x / 10)' else (exp(x) if formula == 'exp(x)' else ((10 * log10(x)) if formula == '10 * log10(x)' else (1000 * x - 273.15)))))), 1000)",
+                  "same-formula-as-without-an-uncertainty")
+        c.no_raise()
